@@ -119,6 +119,19 @@ AllJoins(st) ==
       C(i) == IF i > Len(st.ctes) THEN <<>> ELSE JoinsOfSrc(st.ctes[i].sel.from) \o C(i + 1)
   IN C(1) \o JoinsOfSrc(st.main.from)
 HasExtraCond(j) == j.on.k = "Bin" /\ j.on.op = "AND"
+\* all selects of a statement in the order of definition
+RECURSIVE SelsOfSrc(_), SelsOfSel(_)
+SelsOfSrc(src) ==
+  CASE src.k = "table" -> <<>>
+    [] src.k = "sub" -> SelsOfSel(src.sel)
+    [] src.k = "join" -> SelsOfSrc(src.l) \o SelsOfSrc(src.r)
+SelsOfSel(sel) == SelsOfSrc(sel.from) \o <<sel>>
+AllSels(st) ==
+  LET RECURSIVE C(_)
+      C(i) == IF i > Len(st.ctes) THEN <<>> ELSE SelsOfSel(st.ctes[i].sel) \o C(i + 1)
+  IN C(1) \o SelsOfSel(st.main)
+HasWhere(sel) == sel.where # SNone
+HasItemP(sel) == \E i \in DOMAIN sel.items : sel.items[i].as = "p"
 
 Slot(st, pos) ==
   LET m == st.main IN
@@ -134,6 +147,10 @@ Slot(st, pos) ==
     [] pos = "topBy" -> m.order[1].e
     [] pos = "joinOn" -> m.from.on
     [] pos = "joinOn2" -> m.from.on.y
+    [] pos = "joinRightWhere2" -> LET ss == SelectSeq(AllSels(st), HasWhere) IN IF ss = <<>> THEN SNone ELSE ss[1].where
+    [] pos = "joinRightExtend2" -> LET ss == SelectSeq(AllSels(st), HasItemP) IN
+                                   IF ss = <<>> THEN SNone
+                                   ELSE LET sel == ss[1] IN sel.items[CHOOSE i \in DOMAIN sel.items : sel.items[i].as = "p"].e
     [] pos = "joinNested" -> LET js == SelectSeq(AllJoins(st), HasExtraCond) IN IF js = <<>> THEN SNone ELSE js[1].on.y
     [] pos = "let" -> m.where.args[1].y
     [] pos = "arg" -> m.where.args[2]
